@@ -199,11 +199,25 @@ class EventReplayer:
     ) -> WorkflowState:
         """Load WorkflowState from a snapshot."""
         state_dict = snapshot.state
+
+        def _parse_time(value: Any) -> datetime | None:
+            # to_dict() emits ISO strings; snapshots taken in-process may hold datetimes
+            if isinstance(value, datetime):
+                return value
+            if isinstance(value, str):
+                try:
+                    return datetime.fromisoformat(value)
+                except ValueError:
+                    return None
+            return None
+
         return WorkflowState(
             workflow_id=snapshot.entity_id,
             status=state_dict.get("status"),
             application=state_dict.get("application"),
             name=state_dict.get("name"),
+            start_time=_parse_time(state_dict.get("start_time")),
+            end_time=_parse_time(state_dict.get("end_time")),
             context=state_dict.get("context", {}),
             stages=state_dict.get("stages", {}),
             tasks=state_dict.get("tasks", {}),
